@@ -36,7 +36,21 @@ Further ingredients
   * helpers of the filter class that wrap the predicate (`filter.is_python_file_to_parse(p)`) are not predicates themselves: their
     result is inlined like any other helper's;
   * a verdict that travels through a container or a variable assigned more than once cannot be followed: such an event is reported
-    as undecided (exit 2), never as a violation.
+    as undecided (exit 2), never as a violation;
+  * records: a generator that yields `Entry(path, flag, ...)` (NamedTuple / dataclass without a constructor of its own, also through
+    `yield from <itself>(child)`) produces, in `for entry in walk():`, the values `entry.path` (a path of its own, guarded by each
+    yield's guard) and `entry.flag` (atom REC.flag, fixed per yield to the truth of the yielded expression); the same holds inside a
+    helper whose parameter receives such a record at every call site;
+  * `x is None` / `x is not None` where x is the result of a repo helper that returns None on some paths: "not None" is the
+    disjunction of the path conditions of the helper's other `return <value>` statements (conjoined with an atom of its own unless
+    the value plainly is an object: constructor call, literal, `f.read()`, str(...), ...);
+  * os.walk with in-place pruning (`dirs[:] = [d for d in dirs if not excluded(root / d)]`, or a removal loop over a *copy*): no root
+    has an excluded directory above it, and when the start path is known not to be excluded where the walk begins no root is excluded
+    itself.  Pruning at the directory itself is accepted as well: `if excluded(root): dirs.clear()` (also
+    `del dirs[:]`, `dirs[:] = []`; usually followed by `continue`) reached on every run of the body in which the root is excluded, the
+    list not being touched otherwise - then nothing below an excluded directory is visited (the root itself still has to be tested
+    by the body).  Neither counts when the walk is materialised first (`sorted(os.walk(..))`).  A removal loop over the list being iterated is not a pruning (it skips the entry after each removed one) and is named
+    in the VIOLATION.
 """
 
 from __future__ import annotations
@@ -104,6 +118,11 @@ def _regex_class(repo: Repo, ci: ClassInfo) -> bool:
         seen.append(m)
         for c in [n for n in ast.walk(m.node) if isinstance(n, ast.Call)]:
             if lib_name(repo, m, c) in REGEX_FUNCS or (isinstance(c.func, ast.Attribute) and c.func.attr in REGEX_METHODS):
+                hit = True
+                break
+            # a bound `re.compile(p).match` kept for later application
+            par = parent(c)
+            if lib_name(repo, m, c) == "re.compile" and isinstance(par, ast.Attribute) and par.value is c and par.attr in REGEX_METHODS:
                 hit = True
                 break
         if d < 2:
@@ -246,6 +265,7 @@ class Facts:
         self.g = g
         self.params = [p for p in g.param_names]
         self.bind: dict[str, list[tuple]] = {}
+        self._recvars: dict[str, object] = {}
         for n in own_nodes(g.node):
             if isinstance(n, ast.Assign):
                 for t in n.targets:
@@ -345,12 +365,67 @@ class Facts:
         names = {name} | set(self._up) | set(self._up.values())
         return frozenset(n for n in names if self._find(n) == r)
 
+    def record_var(self, name: str):
+        """`for name in <generator>()` whose every yield constructs the same record class (NamedTuple / dataclass):
+        (iteration source, generator, [(yield, {field: expression inside the generator})]), else None."""
+        if name in self._recvars:
+            return self._recvars[name]
+        self._recvars[name] = None
+        if any(isinstance(n, ast.Attribute) and isinstance(n.ctx, (ast.Store, ast.Del)) and isinstance(n.value, ast.Name) and n.value.id == name for n in own_nodes(self.g.node)):
+            return None  # the record is modified by the consumer
+        bs = self.bind.get(name, [])
+        if name in self.params and not bs and self.g is not self.scan.a.entry:
+            # a parameter that receives such a record at every call site (`for entry in walk(): self._handle(entry)`)
+            got = None
+            sites = self.scan.sites.get(self.g.fq, [])
+            for h, call in sites:
+                a = self.scan.args_by_param(self.g, call).get(name)
+                rv = self.scan.facts(h).record_var(a.id) if isinstance(a, ast.Name) and h is not self.g else None
+                if rv is None or (got is not None and (rv[1] is not got[1] or list(rv[2][0][1]) != list(got[2][0][1]))):
+                    return None
+                got = rv
+            if got is not None:
+                self._recvars[name] = (None, got[1], got[2])
+            return self._recvars[name]
+        if name in self.params or len(bs) != 1 or bs[0][0] != "for" or bs[0][2] is not None:
+            return None
+        w = self.scan.generator_of(self.g, bs[0][1])
+        if w is None:
+            return None
+        for n in own_nodes(w.node):
+            # `yield from <the generator itself>(child)` adds no new kind of element; anything else delegated to is not followed
+            if isinstance(n, ast.YieldFrom) and not (isinstance(n.value, ast.Call) and self.scan.callees(w, n.value) == [w]):
+                return None
+        ys = []
+        for y in [n for n in own_nodes(w.node) if isinstance(n, ast.Yield)]:
+            fields = self.scan.record_fields(w, y.value) if isinstance(y.value, ast.Call) else None
+            if fields is None:
+                return None
+            ys.append((y, fields))
+        if not ys or len({tuple(f) for _y, f in ys}) != 1:
+            return None
+        self._recvars[name] = (bs[0][1], w, ys)
+        return self._recvars[name]
+
+    def record_field(self, e: ast.expr) -> str | None:
+        """`entry.path` where entry is a record produced by a generator: the field is a value of its own, named `entry.path`."""
+        if isinstance(e, ast.Attribute) and isinstance(e.value, ast.Name) and isinstance(e.ctx, ast.Load):
+            rv = self.record_var(e.value.id)
+            if rv is not None and e.attr in rv[2][0][1]:
+                name = f"{e.value.id}.{e.attr}"
+                if name not in self.bind:
+                    self.bind[name] = [("recfield", e.value.id, e.attr)]
+                return name
+        return None
+
     def alias_name(self, e: ast.expr) -> str | None:
         """Name of the variable whose *path value* this expression denotes (through resolve()/absolute()/Path()/str()), else None."""
         if isinstance(e, ast.Name):
             return e.id
         if id(e) in self.joins:
             return self.joins[id(e)]
+        if isinstance(e, ast.Attribute):
+            return self.record_field(e)
         if isinstance(e, ast.Call):
             f = e.func
             if isinstance(f, ast.Attribute) and f.attr in ALIAS_METHODS and not e.args:
@@ -378,6 +453,8 @@ class Facts:
             bs = self.bind.get(n, [])
             if len(bs) == 1 and bs[0][0] == "for" and self.scan.generator_of(self.g, bs[0][1]) is not None:
                 return "forgen"
+            if len(bs) == 1 and bs[0][0] == "recfield":
+                return "param" if bs[0][1] in self.params else "forgen"
         for n in R:
             bs = self.bind.get(n, [])
             if len(bs) == 1 and bs[0][0] == "for" and self.scan.recursive_source(self.g, bs[0][1]) is not None:
@@ -428,6 +505,9 @@ class Facts:
         if isinstance(e, ast.Attribute):
             if isinstance(e.value, ast.Name) and e.value.id in ("self", "cls"):
                 return set()
+            rf = self.record_field(e)
+            if rf is not None:
+                return {rf}
             return self.trace(e.value, seen)
         if isinstance(e, ast.Subscript):
             return self.trace(e.value, seen)
@@ -496,11 +576,24 @@ class Scan:
         self._rec_seen: list = []
         self.used_records: dict[str, object] = {}
         self.prefix_bugs: list[str] = []
+        self.walk_notes: list[str] = []
 
     def facts(self, g: FuncInfo) -> Facts:
         if g.fq not in self._facts:
-            self._facts[g.fq] = Facts(self, g)
+            fx = Facts.__new__(Facts)
+            self._facts[g.fq] = fx  # registered first: looking at the callers' facts may come back here
+            fx.__init__(self, g)
         return self._facts[g.fq]
+
+    def args_by_param(self, g: FuncInfo, call: ast.Call) -> dict[str, ast.expr]:
+        names = list(g.param_names)
+        if g.cls is not None and g.outer is None and not g.is_staticmethod and names and isinstance(call.func, ast.Attribute):
+            names = names[1:]
+        out = {p: a for p, a in zip(names, call.args) if not isinstance(a, ast.Starred)}
+        for k in call.keywords:
+            if k.arg in names:
+                out[k.arg] = k.value
+        return out
 
     def callees(self, h: FuncInfo, c: ast.Call) -> list[FuncInfo]:
         try:
@@ -558,6 +651,33 @@ class Scan:
             return cs[0]
         return None
 
+    def record_fields(self, g: FuncInfo, call: ast.Call) -> dict[str, ast.expr] | None:
+        """field -> argument expression of a call that constructs a plain record (NamedTuple / dataclass without own constructor)."""
+        try:
+            ci = self.T.ctor_class(g, call)
+        except Exception:  # noqa: BLE001
+            return None
+        if ci is None:
+            return None
+        if not (ci.is_dataclass or any(b.rsplit(".", 1)[-1] == "NamedTuple" for b in ci.bases)):
+            return None
+        if any(m in ci.methods for m in ("__init__", "__new__", "__post_init__", "__getattr__", "__getattribute__")):
+            return None
+        names = list(ci.ann_attrs)
+        if any(isinstance(a, ast.Starred) for a in call.args) or any(k.arg is None or k.arg not in names for k in call.keywords) or len(call.args) > len(names):
+            return None
+        out = dict(zip(names, call.args))
+        for k in call.keywords:
+            if k.arg in out:
+                return None
+            out[k.arg] = k.value
+        for n in names:
+            if n not in out:
+                if n not in ci.class_attrs:
+                    return None
+                out[n] = ci.class_attrs[n]
+        return {n: out[n] for n in names}
+
     def is_pred(self, g: FuncInfo, c: ast.Call) -> bool:
         if not isinstance(c.func, (ast.Attribute, ast.Name)) or len(c.args) + len(c.keywords) != 1:
             return False
@@ -592,6 +712,10 @@ class Scan:
             return f_or([f_and([c, self.F(g, e.body, R, env, depth)]), f_and([f_not(c), self.F(g, e.orelse, R, env, depth)])])
         if isinstance(e, ast.NamedExpr):
             return self.F(g, e.value, R, env, depth)
+        if isinstance(e, ast.Attribute) and env and norm(e) in env:
+            return env[norm(e)]
+        if isinstance(e, ast.Attribute) and isinstance(e.value, ast.Name) and R and any(n.startswith(e.value.id + ".") for n in R) and fx.record_field(e) is not None and fx.record_field(e) not in R:
+            return atom(f"REC.{e.attr}")  # another field of the record whose path is tracked: fixed by each yield (see totals)
         if isinstance(e, ast.Name):
             if e.id in env:
                 return env[e.id]
@@ -609,6 +733,9 @@ class Scan:
                 t = self.F(g, left, R, env, depth)  # object-or-None values: `x is not None` is the truthiness of x
                 if self._object_or_none(g, left):
                     return t if isinstance(op, ast.IsNot) else f_not(t)
+                nn = self._not_none(g, left, R, depth)
+                if nn is not None:
+                    return nn if isinstance(op, ast.IsNot) else f_not(nn)
                 return self.opaque(g, e, False)
             if isinstance(op, (ast.In, ast.NotIn)) and isinstance(right, (ast.Tuple, ast.List, ast.Set)) and right.elts and self._suffix_of(g, left, R):
                 if all(fold(self.repo, g.module, x, g) == ".py" for x in right.elts):
@@ -707,6 +834,53 @@ class Scan:
                 return bool(rets) and all(r.value is None or (isinstance(r.value, ast.Constant) and r.value.value is None) or self.T.ctor_class(h, r.value) is not None if isinstance(r.value, (ast.Call, ast.Constant)) or r.value is None else False for r in rets)
         return False
 
+    def _not_none(self, g: FuncInfo, e: ast.expr, R: frozenset | None, depth: int) -> Formula | None:
+        """`e is not None` where e is the result of a repo helper: some `return <value>` other than `return None` was taken (its path
+        condition in terms of the tracked path) and that value is not None (an atom of its own unless the value plainly is an object)."""
+        fx = self.facts(g)
+        if isinstance(e, ast.NamedExpr):
+            return self._not_none(g, e.value, R, depth)
+        if isinstance(e, ast.Name):
+            bs = fx.bind.get(e.id, [])
+            if e.id in fx.params or depth > 8:
+                return None
+            if len(bs) == 1 and bs[0][0] == "val":
+                return self._not_none(g, bs[0][1], R, depth + 1)
+            if len(bs) > 1 and all(b[0] == "val" for b in bs) and parent(e) is not None:
+                v = fx.reaching(e)
+                if v is not None:
+                    return self._not_none(g, v, R, depth + 1)
+            return None
+        if not isinstance(e, ast.Call) or depth > 6:
+            return None
+        cs = self.callees(g, e) or self.any_callees(g, e)
+        if len(cs) != 1:
+            return None
+        h = cs[0]
+        if isinstance(h.node, ast.Lambda) or h.is_abstract or any(isinstance(n, (ast.Yield, ast.YieldFrom)) for n in own_nodes(h.node)):
+            return None
+        Rh = self.bind_args(g, e, h, R)
+        parts = []
+        # the path conditions below are exact for straight-line / branching helpers only: with a return inside a loop or a try block
+        # every part keeps an atom of its own, so that neither "is None" nor "is not None" decides anything it should not
+        loopy = False
+        for r in [n for n in own_nodes(h.node) if isinstance(n, ast.Return)]:
+            q = parent(r)
+            while q is not None and q is not h.node:
+                if isinstance(q, (ast.For, ast.AsyncFor, ast.While, ast.Try)):
+                    loopy = True
+                q = parent(q)
+        for r in [n for n in own_nodes(h.node) if isinstance(n, ast.Return)]:
+            v = r.value
+            if v is None or (isinstance(v, ast.Constant) and v.value is None):
+                continue
+            gr = self.guard(h, r, Rh, {}, depth + 1)
+            plain = isinstance(v, (ast.Constant, ast.JoinedStr, ast.List, ast.Tuple, ast.Dict, ast.Set, ast.ListComp, ast.SetComp, ast.DictComp, ast.GeneratorExp, ast.Compare, ast.Lambda))
+            if isinstance(v, ast.Call):
+                plain = self.T.ctor_class(h, v) is not None or (isinstance(v.func, ast.Attribute) and v.func.attr in CONTENT_METHODS - {"open"} | {"join", "format", "resolve", "absolute"}) or (isinstance(v.func, ast.Name) and v.func.id in ("str", "list", "tuple", "set", "dict", "frozenset", "sorted", "bool", "int", "len", "repr")) or lib_name(self.repo, h, v) == "ast.parse"
+            parts.append(gr if plain and not loopy else f_and([gr, atom(f"{g.qualname}:{norm(e, 60)} -> {norm(v, 60)} is not None")]))
+        return f_or(parts)
+
     def call_truth(self, g: FuncInfo, call: ast.Call, h: FuncInfo, R: frozenset | None, depth: int) -> Formula | None:
         """Truth condition of the result of `h(...)` called from g, in terms of the tracked path."""
         if any(isinstance(n, (ast.Yield, ast.YieldFrom)) for n in own_nodes(h.node)):
@@ -754,9 +928,16 @@ class Scan:
         for k in call.keywords:
             if k.arg in names and fx.is_alias(k.value, R):
                 hit.add(k.arg)
-        if not hit:
-            return None
         out: set[str] = set()
+        for p, a in self.args_by_param(h, call).items():
+            if isinstance(a, ast.Name):
+                for n in R:
+                    if n.startswith(a.id + ".") and fh.record_var(p) is not None:
+                        rf = fh.record_field(ast.Attribute(value=ast.Name(id=p, ctx=ast.Load()), attr=n.split(".", 1)[1], ctx=ast.Load()))
+                        if rf is not None:
+                            out |= fh.cls_of(rf)
+        if not hit and not out:
+            return None
         for p in hit:
             out |= fh.cls_of(p)
         return frozenset(out)
@@ -779,10 +960,10 @@ class Scan:
         out: dict[int, Formula] = {}
         self._reach_cache[key] = out
         canon = {a[1] for a in _CANON}
-        Rn = set(R or ())
+        Rn = set(R or ()) | {n.split(".", 1)[0] for n in (R or ()) if "." in n and not n.startswith("<")}
 
         def deps(name: str) -> set[str]:
-            if name in canon:
+            if name in canon or name.startswith("REC."):
                 return Rn
             import re as _re
 
@@ -933,6 +1114,30 @@ class Scan:
                     outs.append(f_and([local, t]))
             return outs or [local]
         if k == "forgen":
+            rec = next((fx.bind[n][0] for n in R if len(fx.bind.get(n, [])) == 1 and fx.bind[n][0][0] == "recfield"), None)
+            if rec is not None:
+                # `for entry in walk(): ... entry.path ...`: each yield constructs the record; its other fields are known values
+                _k, var, fld = rec
+                _it, w, ys = fx.record_var(var)
+                fw = self.facts(w)
+                outs = []
+                for y, fields in ys:
+                    pe = fields[fld]
+                    an = fw.alias_name(pe)
+                    rs = fw.roots(pe)
+                    Rw = rs[0] if len(rs) == 1 else (fw.cls_of(an) if an is not None else None)
+                    env_y = dict(env or {})
+                    fixed = []
+                    for f2, ye in fields.items():
+                        if f2 != fld:
+                            val = self.F(w, ye, Rw, {})
+                            env_y[f"{var}.{f2}"] = val
+                            a2 = atom(f"REC.{f2}")
+                            fixed.append(f_or([f_and([a2, val]), f_and([f_not(a2), f_not(val)])]))
+                    loc_y = self.guard(g, node, R, env_y)
+                    for t in self.totals(w, y, Rw, depth + 1):
+                        outs.append(f_and([loc_y, t, *fixed]))
+                return outs or [local]
             n = next(n for n in R if len(fx.bind.get(n, [])) == 1 and fx.bind[n][0][0] == "for" and self.generator_of(g, fx.bind[n][0][1]) is not None)
             _k, it, idx, target = fx.bind[n][0]
             w = self.generator_of(g, it)
@@ -979,9 +1184,104 @@ class Scan:
         fx = self.facts(g)
         for n in own_nodes(g.node):
             if isinstance(n, ast.For) and isinstance(n.target, (ast.Tuple, ast.List)) and n.target.elts and isinstance(n.target.elts[0], ast.Name) and n.target.elts[0].id in R and self.recursive_source(g, n.iter) is not None:
+                if not self._walk_lazy(g, n):
+                    note = f"the walk is materialised by `{norm(n.iter, 50)}` before the first directory is looked at: changing the list of sub-directories inside the loop cannot stop the descent any more"
+                    if note not in self.walk_notes:
+                        self.walk_notes.append(note)
+                    continue  # sorted(os.walk(..)) / list(..): the library has finished before the body runs, pruning has no effect
                 if rcs.walk_pruned(self, g, n, R):
+                    # every root after the first is a sub-directory that survived the pruning; the first one is the start path:
+                    # when that is known not to be excluded where the walk begins, no root is excluded either
+                    if self._walk_start_clean(g, n):
+                        return f_and([f_not(ANC), f_not(EXCL)])
+                    return f_not(ANC)
+                if self._walk_emptied_when_excluded(g, n, R):
+                    # pruning at the directory itself: whenever the visited root is excluded its list of sub-directories is emptied,
+                    # so nothing below an excluded directory is ever visited (the root itself still has to be tested by the body)
                     return f_not(ANC)
         return TRUE
+
+    def _walk_lazy(self, g: FuncInfo, loop: ast.For) -> bool:
+        it = loop.iter
+        if isinstance(it, ast.Name) and it.id not in self.facts(g).params:
+            bs = self.facts(g).bind.get(it.id, [])
+            if len(bs) == 1 and bs[0][0] == "val":
+                it = bs[0][1]
+        if isinstance(it, ast.Call) and isinstance(it.func, ast.Name) and it.func.id == "iter" and len(it.args) == 1:
+            it = it.args[0]
+        return rcs.is_recursive_listing(self.repo, g, it)
+
+    def _walk_emptied_when_excluded(self, g: FuncInfo, loop: ast.For, R: frozenset) -> bool:
+        """`if <excluded>(root): dirs.clear() / del dirs[:] / dirs[:] = []` (usually followed by `continue`): on every run of the loop
+        body in which the root is excluded the list os.walk descends by is emptied - and nothing else ever touches that list."""
+        if not (isinstance(loop.target, (ast.Tuple, ast.List)) and len(loop.target.elts) == 3 and isinstance(loop.target.elts[1], ast.Name)):
+            return False
+        dirs = loop.target.elts[1].id
+
+        def slice_all(t: ast.expr) -> bool:
+            return isinstance(t, ast.Subscript) and isinstance(t.value, ast.Name) and t.value.id == dirs and isinstance(t.slice, ast.Slice) and t.slice.lower is None and t.slice.upper is None and t.slice.step is None
+
+        def empties(st: ast.AST) -> bool:
+            if isinstance(st, ast.Assign) and len(st.targets) == 1 and slice_all(st.targets[0]) and rcs._is_empty(st.value):
+                return True
+            if isinstance(st, ast.Expr) and isinstance(st.value, ast.Call) and isinstance(st.value.func, ast.Attribute) and st.value.func.attr == "clear" and not st.value.args and isinstance(st.value.func.value, ast.Name) and st.value.func.value.id == dirs:
+                return True
+            return isinstance(st, ast.Delete) and len(st.targets) == 1 and slice_all(st.targets[0])
+
+        emptiers: list[ast.stmt] = []
+        body_nodes = [n for st in loop.body for n in ast.walk(st)]
+        inside: set[int] = set()
+        for n in body_nodes:
+            if isinstance(n, ast.stmt) and empties(n):
+                q, nested = parent(n), False
+                while q is not None and q is not loop:
+                    if isinstance(q, (ast.For, ast.AsyncFor, ast.While, ast.Try, ast.FunctionDef, ast.AsyncFunctionDef, ast.Lambda, ast.Match)):
+                        nested = True
+                    q = parent(q)
+                if nested:
+                    return False
+                emptiers.append(n)
+                inside |= {id(x) for x in ast.walk(n)}
+        if not emptiers:
+            return False
+        # nothing else may touch the list (a re-bound name would make `dirs.clear()` empty another list; additions would re-fill it);
+        # reading it (`for d in dirs`, `sorted(dirs)`) and re-ordering it in place are harmless
+        for n in body_nodes:
+            if id(n) in inside:
+                continue
+            if isinstance(n, ast.Name) and n.id == dirs:
+                par = parent(n)
+                if isinstance(n.ctx, (ast.Store, ast.Del)):
+                    return False
+                if isinstance(par, ast.Attribute) and par.value is n and isinstance(parent(par), ast.Call) and parent(par).func is par and par.attr in _MUTATORS and par.attr not in ("sort", "reverse"):
+                    return False
+                if isinstance(par, ast.Subscript) and par.value is n and isinstance(par.ctx, (ast.Store, ast.Del)):
+                    return False
+                if isinstance(par, ast.AugAssign) and par.target is n:
+                    return False
+        reached = f_or([self.guard(g, st, R) for st in emptiers])
+        # relative to what holds whenever the loop runs at all (tests before the loop, about other variables)
+        return implies(f_and([EXCL, ISDIR, self.guard(g, loop, None)]), reached, CONSTRAINTS)
+
+    def _walk_start_clean(self, g: FuncInfo, loop: ast.For) -> bool:
+        key = ("walkstart", g.fq, id(loop))
+        if key in self._ret_cache:
+            return self._ret_cache[key]
+        self._ret_cache[key] = False
+        call = self.recursive_source(g, loop.iter)
+        ok = False
+        if call is not None and lib_name(self.repo, g, call) == "os.walk" and (call.args or any(k.arg == "top" for k in call.keywords)):
+            start = call.args[0] if call.args else next(k.value for k in call.keywords if k.arg == "top")
+            fx = self.facts(g)
+            an = fx.alias_name(start)
+            if an is not None:
+                rs = fx.roots(ast.Name(id=an, ctx=ast.Load()))
+                Rs = rs[0] if len(rs) == 1 else fx.cls_of(an)
+                anchor = stmt_of(call) or loop
+                tots = [t for t in self.totals(g, anchor, Rs, 1) if satisfiable(t, CONSTRAINTS)]
+                ok = bool(tots) and all(implies(t, f_not(EXCL), CONSTRAINTS) for t in tots)
+        self._ret_cache[key] = ok
+        return ok
 
     def child_total(self, parent_totals: list[Formula]) -> list[Formula]:
         """What is known about an entry `d / x` of a directory d from what is known about d: it comes out of the same recursive
@@ -1082,6 +1382,14 @@ class Scan:
         for kw in call.keywords:
             if kw.arg in R:
                 return cls(kw.value)
+        for n in R:
+            if "." in n and not n.startswith("<"):
+                base, fld = n.split(".", 1)
+                a = self.args_by_param(g, call).get(base)
+                if isinstance(a, ast.Name) and fh.record_var(a.id) is not None:
+                    rf = fh.record_field(ast.Attribute(value=ast.Name(id=a.id, ctx=ast.Load()), attr=fld, ctx=ast.Load()))
+                    if rf is not None:
+                        return fh.cls_of(rf)
         return None
 
     # ------------------------------------------------------------------ events
@@ -1302,6 +1610,8 @@ def run(repo: Repo, res: Result, rule: str, anchors: Anchors | None = None) -> i
                     break
             if not ok:
                 break
+        if not ok and sc.walk_notes and "suffix is '.py'" not in why:
+            why += "; " + "; ".join(sc.walk_notes[:2])
         if ok and routed:
             res.undecide(rule, key, f"the verdict of the exclusion test reaches this point through `{routed}`, which the analysis cannot follow: no verdict on whether it guards the {ev.kind}", where(g, ev.node))
             continue
